@@ -221,6 +221,23 @@ func init() {
 	sources = append(sources, sb.String())
 }
 
+func init() {
+	// erroneous sources of one and the same length (300 bytes) whose layout
+	// before the error differs: lines, tabs, multi-byte characters
+	mk := func(head string) string {
+		tail := " | where ("
+		pad := 300 - len(head) - len(tail)
+		return head + strings.Repeat(" ", pad) + tail
+	}
+	sources = append(sources,
+		mk("T | where a == 1"),
+		mk("T\n| where a == 1\n| where b == 2\n| where c == 3"),
+		mk("T\t|\twhere a == 1\t\t| take 5"),
+		mk("T | where s == '\u00e9\u00e9\u00e9\u65e5\u672c\U0001F600' | where t == 'x'"),
+		mk("T\n\n\n\n\n| where a == 1 // c\n"),
+		mk("let x = 1;\nlet y = 2;\n\tT | where a == x"))
+}
+
 func optionSet() []*pql.CompileOptions {
 	shared := &pql.CompileOptions{Parameters: map[string]string{"p": "$1", "a": "{a:Int64}", "k": "?"}}
 	// the same three among seventeen: a larger map may be handled differently
@@ -228,10 +245,12 @@ func optionSet() []*pql.CompileOptions {
 	for i := 0; i < 14; i++ {
 		wide.Parameters[fmt.Sprintf("w%d", i)] = fmt.Sprintf("$%d", 10+i)
 	}
-	return []*pql.CompileOptions{nil, {}, {Parameters: map[string]string{}}, shared, wide}
+	// keys that differ only in letter case or in surrounding white space are different keys
+	odd := &pql.CompileOptions{Parameters: map[string]string{"p": "$1", "p ": "$2", " p": "$3", "P": "$4", "a": "{a:Int64}", "A": "{A:Int64}", "a\t": "{t:Int64}", "k": "?", "": "$9"}}
+	return []*pql.CompileOptions{nil, {}, {Parameters: map[string]string{}}, shared, wide, odd}
 }
 
-var optNames = []string{"nil", "zero", "empty-map", "shared{p,a,k}", "shared{p,a,k,w0..w13}"}
+var optNames = []string{"nil", "zero", "empty-map", "shared{p,a,k}", "shared{p,a,k,w0..w13}", "shared{p,'p ',' p',P,a,A,k,''}"}
 
 // snapshotParams copies every parameter map of an option set.
 func snapshotParams(opts []*pql.CompileOptions) []map[string]string {
